@@ -436,8 +436,8 @@ pub fn main_for(pid: &str) {
             let name = pool.names[0];
             let kids: Vec<ANode> = strs.iter().skip(k * per).take(per)
                 .map(|s| ANode::Elem { name, ns: vec![], attrs: vec![], kids: vec![ANode::Text(s.clone())] }).collect();
-            let mut t = ANode::Doc(vec![ANode::Elem { name, ns: vec![], attrs: vec![], kids }]);
-            declare_missing(&mut r, &mut t, &reg, &pool, 100);
+            // (names in no namespace: nothing to declare, and no stray declaration takes the document out of the oracle's domain)
+            let t = ANode::Doc(vec![ANode::Elem { name, ns: vec![], attrs: vec![], kids }]);
             let root = build(&mut xot, &reg, &t);
             let mut queries = vec![];
             for gt in [true, false] {
@@ -507,7 +507,8 @@ const BRACKET_DOCS: usize = 40;
 
 pub fn bracket_strings() -> Vec<String> {
     let mut out = vec![];
-    for (alphabet, lens) in [(&[']', '>', 'x'][..], 1..=5usize), (&[']', '>'][..], 6..=7usize)] {
+    // ... and over { ']', '>', CR } up to length 4: a carriage return ends a CDATA section, so it meets the "]]>" guard
+    for (alphabet, lens) in [(&[']', '>', 'x'][..], 1..=5usize), (&[']', '>'][..], 6..=7usize), (&[']', '>', '\r'][..], 2..=4usize)] {
         for len in lens {
             let total = alphabet.len().pow(len as u32);
             for mut i in 0..total {
@@ -527,7 +528,7 @@ pub fn bracket_text(r: &mut Rng, a: &mut ANode) {
         ANode::Text(s) => {
             if r.chance(1, 2) {
                 let n = 1 + r.below(7);
-                *s = (0..n).map(|_| *r.pick(&[']', ']', ']', '>', '>', 'x', '<', '&', '\n'])).collect();
+                *s = (0..n).map(|_| *r.pick(&[']', ']', ']', '>', '>', 'x', '<', '&', '\n', '\r'])).collect();
             }
         }
         _ => {}
